@@ -139,20 +139,34 @@ func checkC12(c *core.Ctx, l *core.Ledger) {
 		l.Add(core.Obligation{Rule: "ENV-SEQ", Key: "StreamReader.readStrictEnvelope", Pos: c.Rel(f.Pos()), Status: st(got == want), Detail: "version word masked with 0xffff0000 must equal 0x80010000 (same constant the writer ORs in); name string; type = low byte of the word; trace " + got})
 	}
 	if f := fn("StreamReader.readNonStrictEnvelope"); f != nil {
-		got := shapeSeqs(m.RSeqs(f))
-		want := "[loop:u8 u8:Type] | [u8:Type]"
-		ok := got == want
-		// the loop is bounded by the length parameter and fills buf[i] which becomes Name
-		cnt := false
-		for _, body := range loopsOf(f) {
-			if why, is := countedLoop(body); is && strings.HasSuffix(why, "< $1") {
-				cnt = true
+		got := dedupShapes(shapeSeqs(m.RSeqs(f)))
+		ok := false
+		how := ""
+		switch got {
+		case "[loop:u8 u8:Type] | [u8:Type]":
+			// byte-by-byte loop: must be counted by the length parameter
+			for _, body := range loopsOf(f) {
+				if why, is := countedLoop(body); is && strings.HasSuffix(why, "< $1") {
+					ok = true
+					how = "counted loop of single-byte reads bounded by the length parameter"
+				}
 			}
+		case "[bytes u8:Type]":
+			// bulk read: every bulk event must read exactly the length parameter
+			ok = true
+			for _, s := range m.RSeqs(f) {
+				for _, e := range flattenAlts(s) {
+					if (strings.HasPrefix(e, "copyN(") || strings.HasPrefix(e, "readfull(")) && !(strings.HasPrefix(e, "copyN($1)") || strings.HasPrefix(e, "readfull(make($1))")) {
+						ok = false
+					}
+				}
+			}
+			how = "bulk read of exactly the length parameter"
 		}
 		tr, _ := core.TraceSeqs(f, func(call ssa.CallInstruction) bool { return true })
-		trs := normRepl.Replace(core.SeqString(tr))
-		nameOK := strings.Contains(trs, "Name=make($1)") || strings.Contains(trs, "Name=sr.ReadBinary") || strings.Contains(trs, "Name=")
-		l.Add(core.Obligation{Rule: "ENV-SEQ", Key: "StreamReader.readNonStrictEnvelope", Pos: c.Rel(f.Pos()), Status: st(ok && cnt && nameOK), Detail: "legacy layout: length name bytes, then one type byte: " + got + " (counted by the length parameter: " + fmt.Sprint(cnt) + ")"})
+		trs := core.ResolveLit(normRepl.Replace(core.SeqString(tr)))
+		nameOK := strings.Contains(trs, "Name=") && strings.Contains(trs, "Type=sr.ReadInt8($0)#0")
+		l.Add(core.Obligation{Rule: "ENV-SEQ", Key: "StreamReader.readNonStrictEnvelope", Pos: c.Rel(f.Pos()), Status: st(ok && nameOK), Detail: "legacy layout: <length> name bytes, then one type byte: " + got + " (" + how + "); trace " + trs})
 	}
 	// random-access reader
 	if f := fn("Reader.ReadEnveloped"); f != nil {
